@@ -204,6 +204,13 @@ def run_session(W, case, st):
             fail("pubkey_agg differs from KeyAgg", got=hx(x.raw), model=hx(M.xbytes(kc0.Q)))
         if not cache_matches(cache_read(L, cache), kc0):
             fail("keyagg cache after pubkey_agg differs from (Q, second key, L, gacc=1, tacc=0)")
+        # both outputs are optional: each alone must give what the pair gave
+        agg1, cache1 = buf(64), buf(SZ_CACHE)
+        ra = L.musig_pubkey_agg(L.ctx, agg1, None, ptrs(pkobjs), u)
+        rc = L.musig_pubkey_agg(L.ctx, None, cache1, ptrs(pkobjs), u)
+        st.calls += 2
+        if ra != 1 or rc != 1 or agg1.raw != agg.raw or cache1.raw != cache.raw:
+            fail("pubkey_agg with only one of the optional outputs (agg_pk / keyagg_cache) differs from the call with both")
         kc, q = kc0, q0
         for step, (xo, kind) in enumerate(word):
             t = W.tweak_value(kc, q, xo, kind)
